@@ -1024,5 +1024,269 @@ theorem summary_distance {c : Config α} {route : List (Branch α)} (hacc : Accu
   refine ⟨_, fd, summary_is_last_state hne, hfd, ?_⟩
   rw [hdist _ hk, prefixEdges_last]
 
+/-! ### The closed forms with the values of the run written out
+
+The same statements with the terms replaced by what the successful run computed: lists of the edge
+lengths, of the times `create_time` returned and of the delays the table returned, one per edge /
+per turn, each proved to be exactly the `some` value of the run. -/
+
+theorem prevEdge_forward {c : Config α} (h : c.reverse = false) (l e : Nat) : prevEdge c l e = l := by
+  simp [prevEdge, h]
+theorem nextEdge_forward {c : Config α} (h : c.reverse = false) (l e : Nat) : nextEdge c l e = e := by
+  simp [nextEdge, h]
+theorem prevEdge_reverse {c : Config α} (h : c.reverse = true) (l e : Nat) : prevEdge c l e = e := by
+  simp [prevEdge, h]
+theorem nextEdge_reverse {c : Config α} (h : c.reverse = true) (l e : Nat) : nextEdge c l e = l := by
+  simp [nextEdge, h]
+
+theorem map_prefixEdges {β : Type} (route : List (Branch α)) (k : Nat) (g : Nat → β) :
+    (prefixEdges route k).map g = (route.map (fun b => g b.edge)).take (k + 1) := by
+  simp [prefixEdges, List.map_take, List.map_map, Function.comp_def]
+
+theorem pairs_take : ∀ (l : List Nat) (k : Nat), pairs (l.take (k + 1)) = (pairs l).take k
+  | [], _ => by simp [pairs]
+  | [a], k => by simp [pairs]
+  | a :: b :: r, 0 => by simp [pairs]
+  | a :: b :: r, k + 1 => by
+    have := pairs_take (b :: r) k
+    simp only [List.take_succ_cons] at this ⊢
+    rw [pairs_cons_cons, pairs_cons_cons, this, List.take_succ_cons]
+
+theorem pairs_prefixEdges (route : List (Branch α)) (k : Nat) :
+    pairs (prefixEdges route k) = (pairs (route.map (·.edge))).take k := by
+  rw [← pairs_take]
+  simp [prefixEdges, List.map_take]
+
+theorem pairs_length (l : List Nat) : (pairs l).length = l.length - 1 := by
+  simp [pairs, List.length_zip, List.length_tail]
+
+theorem pairs_getElem? (l : List Nat) (k : Nat) (hk : k + 1 < l.length) :
+    (pairs l)[k]? = some (l[k], l[k + 1]) := by
+  rw [pairs, List.getElem?_zip_eq_some]
+  refine ⟨by simp, ?_⟩
+  rw [List.getElem?_eq_getElem (by simp [List.length_tail]; omega), List.getElem_tail]
+
+theorem sum_map_mul (l : List α) (r : α) : (l.map (· * r)).sum = l.sum * r := by
+  induction l with
+  | nil => simp
+  | cons a l ih => simp [ih, add_mul]
+
+/-- length of edge `e` as stored (base unit); `0` only for an edge that does not exist -/
+def edgeLen (edges : List (EdgeRec α)) (e : Nat) : α :=
+  match edges[e]? with
+  | none => 0
+  | some er => er.dist
+
+theorem distTerm_edgeLen (m : TravModel α) (edges : List (EdgeRec α)) (fu : DistanceUnit) (e : Nat) :
+    distTerm m edges fu e =
+      (travDu m).convert fu (baseDistanceUnit.convert (travDu m) (edgeLen edges e)) := by
+  unfold distTerm edgeLen
+  split
+  · simp [DistanceUnit.convert, Factor.apply_eq]
+  · rfl
+
+/-- **1, written out**: with `du` the traversal model's distance unit and `lens` the stored lengths
+of the route's edges (each edge exists), the distance at element `k` is the initial value plus the
+sum of the first `k + 1` lengths each converted base → `du` → `fu`, which is also the *total* length
+converted once (conversion is linear). -/
+theorem route_distance_is_sum_explicit {c : Config α} {route : List (Branch α)}
+    (hacc : Accumulates c route) {i : Nat} {fu : DistanceUnit} (hs : DistSlot c.feats i fu)
+    {du : DistanceUnit} (hdu : travDu c.trav = du) :
+    ∃ (f : Feat α) (lens : List α), c.feats[i]? = some f ∧ lens.length = route.length ∧
+      (∀ k (hk : k < route.length), ∃ er, c.edges[route[k].edge]? = some er ∧
+        lens[k]? = some er.dist) ∧
+      ∀ k (hk : k < route.length),
+        route[k].state[i]? = some (f.init +
+          ((lens.take (k + 1)).map (fun len => du.convert fu (baseDistanceUnit.convert du len))).sum) ∧
+        route[k].state[i]? = some (f.init +
+          du.convert fu (baseDistanceUnit.convert du (lens.take (k + 1)).sum)) := by
+  obtain ⟨f, hf, hdef, hsum⟩ := route_distance_is_sum hacc hs
+  refine ⟨f, route.map (fun b => edgeLen c.edges b.edge), hf, by simp, ?_, ?_⟩
+  · intro k hk
+    obtain ⟨er, her⟩ := hdef k hk
+    refine ⟨er, her, ?_⟩
+    rw [List.getElem?_map, List.getElem?_eq_getElem hk]
+    simp [edgeLen, her]
+  · intro k hk
+    have h1 : ((prefixEdges route k).map (distTerm c.trav c.edges fu)) =
+        ((route.map (fun b => edgeLen c.edges b.edge)).take (k + 1)).map
+          (fun len => du.convert fu (baseDistanceUnit.convert du len)) := by
+      rw [map_prefixEdges, List.map_take, List.map_map]
+      congr 1
+      apply List.map_congr_left
+      intro b _
+      simp only [Function.comp_def, distTerm_edgeLen, hdu]
+    refine ⟨by rw [hsum k hk, h1], ?_⟩
+    rw [hsum k hk, h1]
+    congr 2
+    simp only [DistanceUnit.convert, Factor.apply_eq]
+    rw [← sum_map_mul, ← sum_map_mul, List.map_map]
+    rfl
+
+theorem timeTerm_speed_getD (edges : List (EdgeRec α)) (su : SpeedUnit) (du : DistanceUnit)
+    (tu : TimeUnit) (ms : α) (table : List α) (ftu : TimeUnit) (e : Nat) :
+    timeTerm (.speed su du tu ms table) edges ftu e =
+      tu.convert ftu ((speedTime? edges su du tu table e).getD 0) := by
+  simp only [timeTerm]
+  split
+  · rename_i h; simp [h, TimeUnit.convert, Factor.apply_eq]
+  · rename_i tv h; simp [h]
+
+theorem delayTerm_turnDelay_getD (dtu : TimeUnit) (headings : List (Int × Option Int))
+    (delays : List (Option α)) (ftu : TimeUnit) (pe ne : Nat) :
+    delayTerm (.turnDelay dtu headings delays) ftu pe ne =
+      dtu.convert ftu ((turnDelayOf headings delays pe ne).getD 0) := by
+  simp only [delayTerm]
+  split
+  · rename_i h; simp [h, TimeUnit.convert, Factor.apply_eq]
+  · rename_i d h; simp [h]
+
+/-- the list of delays found for the turns of the route (turn-delay model) -/
+theorem route_delay_list {c : Config α} {route : List (Branch α)} (hacc : Accumulates c route)
+    {dtu : TimeUnit} {headings : List (Int × Option Int)} {delays : List (Option α)}
+    (hac : c.access = .turnDelay dtu headings delays) (ftu : TimeUnit) :
+    ∃ dls : List α, dls.length = route.length - 1 ∧
+      (∀ k (hk : k + 1 < route.length), ∃ d,
+        turnDelayOf headings delays (prevEdge c route[k].edge route[k + 1].edge)
+          (nextEdge c route[k].edge route[k + 1].edge) = some d ∧ dls[k]? = some d) ∧
+      ∀ k, ((pairs (prefixEdges route k)).map (fun p => turnDelayTerm c ftu p.1 p.2)).sum =
+        ((dls.take k).map (dtu.convert ftu)).sum := by
+  refine ⟨(pairs (route.map (·.edge))).map (fun p =>
+    (turnDelayOf headings delays (prevEdge c p.1 p.2) (nextEdge c p.1 p.2)).getD 0), ?_, ?_, ?_⟩
+  · simp [pairs_length]
+  · intro k hk
+    obtain ⟨d, hd⟩ := route_delays_defined hacc hac k hk
+    refine ⟨d, hd, ?_⟩
+    rw [List.getElem?_map, pairs_getElem? _ _ (by simpa using hk)]
+    simp [hd]
+  · intro k
+    rw [pairs_prefixEdges, List.map_take, List.map_take, List.map_map]
+    congr 2
+    apply List.map_congr_left
+    intro p _
+    simp only [Function.comp_def, turnDelayTerm, hac, delayTerm_turnDelay_getD]
+
+/-- the list of times `create_time` returned for the edges of the route (speed-table model) -/
+theorem route_time_list {c : Config α} {route : List (Branch α)} (hacc : Accumulates c route)
+    {su : SpeedUnit} {du : DistanceUnit} {tu : TimeUnit} {ms : α} {table : List α}
+    (htrav : c.trav = .speed su du tu ms table) (ftu : TimeUnit) :
+    ∃ times : List α, times.length = route.length ∧
+      (∀ k (hk : k < route.length), ∃ er sp tv, c.edges[route[k].edge]? = some er ∧
+        table[route[k].edge]? = some sp ∧
+        createTime sp su (baseDistanceUnit.convert du er.dist) du tu = some tv ∧
+        times[k]? = some tv) ∧
+      ∀ k, ((prefixEdges route k).map (timeTerm c.trav c.edges ftu)).sum =
+        ((times.take (k + 1)).map (tu.convert ftu)).sum := by
+  refine ⟨route.map (fun b => (speedTime? c.edges su du tu table b.edge).getD 0), by simp, ?_, ?_⟩
+  · intro k hk
+    obtain ⟨tv, htv⟩ := route_times_defined hacc htrav k hk
+    obtain ⟨er, sp, her, hsp, hct⟩ := speedTime?_some htv
+    refine ⟨er, sp, tv, her, hsp, hct, ?_⟩
+    rw [List.getElem?_map, List.getElem?_eq_getElem hk]
+    simp [htv]
+  · intro k
+    rw [map_prefixEdges, List.map_take, List.map_map]
+    congr 2
+    apply List.map_congr_left
+    intro b _
+    simp only [Function.comp_def, htrav, timeTerm_speed_getD]
+
+theorem sum_map_zero {β : Type} (l : List β) : (l.map (fun _ => (0 : α))).sum = 0 := by
+  induction l with
+  | nil => rfl
+  | cons a l ih => simp
+
+/-- **2, written out, speed-table model with turn delays**: `times[k]` is the value
+`create_time (table speed of e_k) su (length of e_k in du) du tu` returned, `dls[k]` the delay the
+table returned for the turn from `e_k` to `e_{k+1}`; the time at element `k` is the initial value
+plus the first `k + 1` times (model unit `tu` → feature unit) plus the first `k` delays (table unit
+`dtu` → feature unit). -/
+theorem route_time_is_sum_speed_turnDelay {c : Config α} {route : List (Branch α)}
+    (hacc : Accumulates c route) {t : Nat} {ftu : TimeUnit} (hs : TimeSlot c.feats t ftu)
+    {su : SpeedUnit} {du : DistanceUnit} {tu : TimeUnit} {ms : α} {table : List α}
+    (htrav : c.trav = .speed su du tu ms table)
+    {dtu : TimeUnit} {headings : List (Int × Option Int)} {delays : List (Option α)}
+    (hac : c.access = .turnDelay dtu headings delays) :
+    ∃ (f : Feat α) (times dls : List α), c.feats[t]? = some f ∧
+      times.length = route.length ∧ dls.length = route.length - 1 ∧
+      (∀ k (hk : k < route.length), ∃ er sp tv, c.edges[route[k].edge]? = some er ∧
+        table[route[k].edge]? = some sp ∧
+        createTime sp su (baseDistanceUnit.convert du er.dist) du tu = some tv ∧
+        times[k]? = some tv) ∧
+      (∀ k (hk : k + 1 < route.length), ∃ d,
+        turnDelayOf headings delays (prevEdge c route[k].edge route[k + 1].edge)
+          (nextEdge c route[k].edge route[k + 1].edge) = some d ∧ dls[k]? = some d) ∧
+      ∀ k (hk : k < route.length),
+        route[k].state[t]? = some (f.init + ((times.take (k + 1)).map (tu.convert ftu)).sum
+          + ((dls.take k).map (dtu.convert ftu)).sum) := by
+  obtain ⟨f, hf, hsum⟩ := route_time_is_sum hacc hs
+  obtain ⟨times, ht1, ht2, ht3⟩ := route_time_list hacc htrav ftu
+  obtain ⟨dls, hd1, hd2, hd3⟩ := route_delay_list hacc hac ftu
+  refine ⟨f, times, dls, hf, ht1, hd1, ht2, hd2, ?_⟩
+  intro k hk
+  rw [hsum k hk, ht3, hd3]
+
+/-- **2, written out, speed-table model without access model**: time = initial + Σ times -/
+theorem route_time_is_sum_speed_noAccess {c : Config α} {route : List (Branch α)}
+    (hacc : Accumulates c route) {t : Nat} {ftu : TimeUnit} (hs : TimeSlot c.feats t ftu)
+    {su : SpeedUnit} {du : DistanceUnit} {tu : TimeUnit} {ms : α} {table : List α}
+    (htrav : c.trav = .speed su du tu ms table) (hac : c.access = .noAccess) :
+    ∃ (f : Feat α) (times : List α), c.feats[t]? = some f ∧ times.length = route.length ∧
+      (∀ k (hk : k < route.length), ∃ er sp tv, c.edges[route[k].edge]? = some er ∧
+        table[route[k].edge]? = some sp ∧
+        createTime sp su (baseDistanceUnit.convert du er.dist) du tu = some tv ∧
+        times[k]? = some tv) ∧
+      ∀ k (hk : k < route.length),
+        route[k].state[t]? = some (f.init + ((times.take (k + 1)).map (tu.convert ftu)).sum) := by
+  obtain ⟨f, hf, hsum⟩ := route_time_is_sum hacc hs
+  obtain ⟨times, ht1, ht2, ht3⟩ := route_time_list hacc htrav ftu
+  refine ⟨f, times, hf, ht1, ht2, ?_⟩
+  intro k hk
+  rw [hsum k hk, ht3]
+  have : (fun p : Nat × Nat => turnDelayTerm c ftu p.1 p.2) = fun _ => 0 := by
+    funext p
+    simp only [turnDelayTerm, hac, delayTerm_noAccess]
+  rw [this, sum_map_zero, add_zero]
+
+/-- **2, written out, distance model with turn delays**: time = initial + Σ delays -/
+theorem route_time_is_sum_distance_turnDelay {c : Config α} {route : List (Branch α)}
+    (hacc : Accumulates c route) {t : Nat} {ftu : TimeUnit} (hs : TimeSlot c.feats t ftu)
+    {du : DistanceUnit} (htrav : c.trav = .distance du)
+    {dtu : TimeUnit} {headings : List (Int × Option Int)} {delays : List (Option α)}
+    (hac : c.access = .turnDelay dtu headings delays) :
+    ∃ (f : Feat α) (dls : List α), c.feats[t]? = some f ∧ dls.length = route.length - 1 ∧
+      (∀ k (hk : k + 1 < route.length), ∃ d,
+        turnDelayOf headings delays (prevEdge c route[k].edge route[k + 1].edge)
+          (nextEdge c route[k].edge route[k + 1].edge) = some d ∧ dls[k]? = some d) ∧
+      ∀ k (hk : k < route.length),
+        route[k].state[t]? = some (f.init + ((dls.take k).map (dtu.convert ftu)).sum) := by
+  obtain ⟨f, hf, hsum⟩ := route_time_is_sum hacc hs
+  obtain ⟨dls, hd1, hd2, hd3⟩ := route_delay_list hacc hac ftu
+  refine ⟨f, dls, hf, hd1, hd2, ?_⟩
+  intro k hk
+  rw [hsum k hk, hd3]
+  have : timeTerm c.trav c.edges ftu = fun _ => 0 := by
+    funext e
+    rw [htrav, timeTerm_distance]
+  rw [this, sum_map_zero, add_zero]
+
+/-- distance model without access model: the time slot (if there is one) keeps its initial value -/
+theorem route_time_is_sum_distance_noAccess {c : Config α} {route : List (Branch α)}
+    (hacc : Accumulates c route) {t : Nat} {ftu : TimeUnit} (hs : TimeSlot c.feats t ftu)
+    {du : DistanceUnit} (htrav : c.trav = .distance du) (hac : c.access = .noAccess) :
+    ∃ f : Feat α, c.feats[t]? = some f ∧
+      ∀ k (hk : k < route.length), route[k].state[t]? = some f.init := by
+  obtain ⟨f, hf, hsum⟩ := route_time_is_sum hacc hs
+  refine ⟨f, hf, ?_⟩
+  intro k hk
+  rw [hsum k hk]
+  have h1 : timeTerm c.trav c.edges ftu = fun _ => 0 := by
+    funext e
+    rw [htrav, timeTerm_distance]
+  have h2 : (fun p : Nat × Nat => turnDelayTerm c ftu p.1 p.2) = fun _ => 0 := by
+    funext p
+    simp only [turnDelayTerm, hac, delayTerm_noAccess]
+  rw [h1, h2, sum_map_zero, sum_map_zero, add_zero, add_zero]
+
 end RouteSums
 end Compass
